@@ -189,3 +189,23 @@ func specParsed(p *FrameParser) bool {
 
 //@ iface Sink.Close
 //@ modifies nothing
+
+//@ func getClassicBPFFilter
+//@ safety C12
+//@ ensures[C12.select.icmp]   spec.FilterType == FilterTypeICMP ==> ret1 == nil && ret0 == icmpFilter
+//@ ensures[C12.select.udp]    spec.FilterType == FilterTypeUDP ==> ret1 == nil && ret0 == udpFilter
+//@ ensures[C12.select.synack] spec.FilterType == FilterTypeSYNACK ==> ret1 == nil && ret0 == tcpSynackFilter
+//@ ensures[C12.select.none]   !(spec.FilterType == FilterTypeICMP || spec.FilterType == FilterTypeUDP || spec.FilterType == FilterTypeSYNACK || spec.FilterType == FilterTypeTCP) ==> ret1 != nil && ret0 == nil
+//@ ensures[C12.select.tcp]    spec.FilterType == FilterTypeTCP && !(spec.FilterConfig.Src.Addr().Is4() && spec.FilterConfig.Dst.Addr().Is4()) ==> ret1 != nil
+
+//@ func (FilterConfig).GenerateTCP4Filter
+//@ safety C12
+//@ ensures[C12.tcp.err]       !(c.Src.Addr().Is4() && c.Dst.Addr().Is4()) ==> ret1 != nil && ret0 == nil
+//@ note the program itself is covered by the bit-vector lemma packets.GenerateTCP4Filter#C12.exact (govc bpf)
+
+//@ func AllocPacketID
+//@ safety C11
+//@ ensures[C11.alloc.ret]     int(ret0) == int(old(curPacketID.v)) % 65536
+//@ ensures[C11.alloc.bump]    int(curPacketID.v) == (int(old(curPacketID.v)) + int(maxTTL)) % 4294967296
+//@ lemma[C11.disjoint]        forall(c, 0, 4294967296, forall(m1, 1, 256, forall(d, 0, 65536, forall(m2, 1, 256, forall(t1, 1, m1+1, forall(t2, 1, m2+1, m1 + d + m2 < 65536 ==> (c + t1) % 65536 != (c + m1 + d + t2) % 65536))))))
+//@ modifies global curPacketID
